@@ -124,3 +124,14 @@ Proof. unfold bytes_ok, drop. intros H. rewrite Forall_forall in *. intros x Hx.
   rewrite <- (firstn_skipn (Z.to_nat n) l). apply in_or_app. now right. Qed.
 Lemma bytes_ok_zeros n : bytes_ok (zeros n).
 Proof. unfold zeros, bytes_ok. apply Forall_forall. intros x Hx. apply repeat_spec in Hx. subst. unfold byte_ok. lia. Qed.
+
+Lemma skipn_skipn' {A} (n m : nat) (l : list A) : skipn n (skipn m l) = skipn (m + n) l.
+Proof.
+  revert l. induction m as [|m IH]; intros l; [reflexivity|].
+  destruct l as [|x t]; [now rewrite !skipn_nil|]. cbn [skipn Nat.add]. apply IH.
+Qed.
+Lemma drop_drop {A} (n m : Z) (l : list A) : 0 <= n -> 0 <= m -> drop n (drop m l) = drop (m + n) l.
+Proof. intros. unfold drop. rewrite skipn_skipn', Z2Nat.inj_add by lia. reflexivity. Qed.
+Lemma take_drop_split {A} (d : list A) (pos n : Z) : 0 <= pos -> 0 <= n ->
+  take n (drop pos d) ++ drop (pos + n) d = drop pos d.
+Proof. intros Hp Hn. rewrite <- drop_drop by lia. unfold take. apply firstn_skipn. Qed.
